@@ -176,18 +176,17 @@ func (c *clientHelloConn) Read(b []byte) (n int, err error) {
 		return // need to read more bytes for header
 	}
 
-	// read the header bytes
-	hdr := make([]byte, 5)
-	_, err = io.ReadFull(c.buf, hdr)
-	if err != nil {
-		return // this would be highly unusual and sad
-	}
+	// peek at the header bytes; nothing is consumed from the buffer
+	// until the whole ClientHello has arrived, so that the result does
+	// not depend on how the bytes happen to be split across reads
+	hdr := c.buf.Bytes()[:5]
 
 	// get length of the ClientHello message and read it
 	length := int(uint16(hdr[3])<<8 | uint16(hdr[4]))
-	if c.buf.Len() < length {
+	if c.buf.Len() < 5+length {
 		return // need to read more bytes
 	}
+	c.buf.Next(5)
 	hello := make([]byte, length)
 	_, err = io.ReadFull(c.buf, hello)
 	if err != nil {
@@ -405,6 +404,9 @@ func (info rawHelloInfo) looksLikeFirefox() bool {
 		// newer Firefox (55 Nightly?) may have additional curves at end of list
 		allowedCurves := []tls.CurveID{256, 257}
 		for i := range allowedCurves {
+			if len(requiredCurves)+i >= len(info.Curves) {
+				break // fewer additional curves than allowed
+			}
 			if info.Curves[len(requiredCurves)+i] != allowedCurves[i] {
 				return false
 			}
